@@ -150,6 +150,56 @@ theorem C10_exp_positions_inside (c : ECfg) (hw : c.WF) (ops : List EOp) :
         · simp only [upd, hba, if_false] at hb; exact h b q hb
       · exact h
 
+/-! ## calls the property allows never raise -/
+
+/-- Legacy, every history: a call the property allows never raises — a placement or a move of an agent of
+    the space is accepted whenever the assignment rule accepts the position (and only then), and an agent
+    of the space can be removed.  (`get_neighbors` never raises: `C10_legacy_neighbors_exact`.) -/
+theorem C10_legacy_valid_calls_succeed (c : LCfg) (ops : List LOp) (a : Aid) (p : P2) :
+    let s := lrun c ops
+    (∀ p', torusAdj c p = .ok p' → ∃ s', place s a p = .ok s') ∧
+    (∀ e, torusAdj c p = .error e → place s a p = .error e ∧ move s a p = (s, .error e)) ∧
+    (a ∈ s.agents → ∀ p', torusAdj c p = .ok p' → (move s a p).2 = .ok ()) ∧
+    (a ∈ s.agents → ∃ s', remove s a = .ok s') := by
+  dsimp only
+  have h := lrun_refines c ops
+  refine ⟨fun p' hp => ?_, fun e he => ?_, fun ha p' hp => ?_, fun ha => ?_⟩
+  · exact ⟨_, by simp only [place, h.cfg, hp]; rfl⟩
+  · exact ⟨by simp only [place, h.cfg, he], by simp only [move, h.cfg, he]⟩
+  · rcases move_spec h.inv a p with ⟨e, h1, _⟩ | ⟨q, _, _, _, _, _, h6⟩
+    · rw [h.cfg, hp] at h1; cases h1
+    · rcases h6 with h6 | ⟨_, h7⟩
+      · exact h6
+      · exact absurd ha h7
+  · have : (lrun c ops).a2i.keys.contains a = true := by simpa [LSpace.agents] using ha
+    exact ⟨_, by simp only [remove, this]; rfl⟩
+
+/-- Experimental, every history and every initial capacity: a call the property allows never raises —
+    an agent of the space can be assigned every position the assignment rule accepts (whatever the
+    capacity was: the array has grown), is rejected with `ValueError` otherwise, and can be removed. -/
+theorem C10_exp_valid_calls_succeed (c : ECfg) (cap : Nat) (ops : List EOp) (a : Aid) (p : Pos) :
+    let s := erun c cap ops
+    a ∈ s.active →
+    (∀ p', eassign c p = some p' → ∃ s', setPos s a p = .ok s' ∧ getPos s' a = .ok p') ∧
+    (eassign c p = none → setPos s a p = .error .oob) ∧
+    (∃ s', removeAgent s a = .ok s') := by
+  dsimp only
+  intro ha
+  have h := erun_refines c cap ops
+  refine ⟨fun p' hp => ?_, fun hp => ?_, ?_⟩
+  · rcases setPos_spec h.inv a p with ⟨hn, _⟩ | ⟨_, hr, _⟩ | ⟨q, i, _, hr, hidx, he⟩
+    · exact absurd ha hn
+    · rw [h.cfg, hp] at hr; cases hr
+    · rw [h.cfg, hp] at hr; cases hr
+      exact ⟨_, he, by rw [getPos_set h.inv hidx]; simp⟩
+  · rcases setPos_spec h.inv a p with ⟨hn, _⟩ | ⟨_, _, he⟩ | ⟨q, i, _, hr, _, _⟩
+    · exact absurd ha hn
+    · exact he
+    · rw [h.cfg, hp] at hr; cases hr
+  · obtain ⟨i, hi⟩ := (h.inv.mem_iff a).mp ha
+    obtain ⟨s', h1, _⟩ := removeAgent_spec h.inv hi
+    exact ⟨s', h1⟩
+
 /-! ## radius queries -/
 
 /-- Legacy, every history: `get_neighbors(p, r, include_center)` returns exactly the agents in the space
